@@ -191,6 +191,14 @@ class LockAnalysis:
                     if not (e.k == 'call' and self._is_lock_ctor_arg(e)):
                         key = ('!' + m) if has_param_lock else m
                         out.setdefault(key, (e.get('loc'), '%s of %s' % ('call ' + norm(e.get('callee')) if e.k == 'call' else e.k, fld) + (' after the caller\'s lock was released' if has_param_lock else ''), [f['nname']]))
+            if e.k == 'call':
+                # a guarded member handed to a function (std::swap(q, _queue), std::exchange(_flag, x), f(_queue)) is accessed by that call
+                for a_ in e.get('args') or []:
+                    fa_ = norm(a_.get('field') or '')
+                    m = self.guarded.get(fa_)
+                    if m and not self.is_held(h, m) and not self.exempt(f, fa_):
+                        key = ('!' + m) if has_param_lock else m
+                        out.setdefault(key, (e.get('loc'), 'call %s on %s' % (norm(e.get('callee')), fa_) + (' after the caller\'s lock was released' if has_param_lock else ''), [f['nname']]))
             for c in self.callees(f, e):
                 for m, (loc, text, chain) in self.needs(c).items():
                     if m.startswith('!'):
